@@ -202,6 +202,11 @@ type Obs = (Result<(), String>, Vec<Vec<(u32, Option<f64>)>>);
 
 fn run_sel(s: &Sel, p: &[TInd]) -> Obs {
     let mut st = state_with::<TagP>(vec![tpop(p)]);
+    // a best-so-far that is not (any longer) a member of the population, as after a restart or a
+    // non-elitist replacement: selections draw from the population, not from the state's memories
+    let mut b = mahf::state::common::BestIndividual::<TagP>::new();
+    b.update(&crate::subject::prep::tind(&(999, -7.0)));
+    st.insert(b);
     let c = s.make();
     let r = run_component(c.as_ref(), &TagP, &mut st).map_err(|e| format!("{:#}", e));
     let pops = pops_of(&st).iter().map(|x| rd_tpop(x)).collect();
@@ -365,6 +370,58 @@ pub fn operators(n: usize, thorough: bool) -> Vec<Sel> {
 
 const GRID: [f64; 4] = [-1.0, 0.0, 1.0, f64::INFINITY];
 
+/// Populations of dozens to hundreds of individuals with all-distinct objective values: every operator
+/// returns the requested number of exact copies of members, without error or panic, on the default stream.
+fn check_large(which: usize, n: usize, k: u32, seed: u64) -> Option<(String, String)> {
+    let names = ["FullyRandom", "RandomWithoutRepetition", "RouletteWheel", "StochasticUniversalSampling", "Tournament", "LinearRank", "ExponentialRank(0.5)", "ExponentialRank(0.37)", "ExponentialRank(1e-6)", "ExponentialRank(0.999)", "DeterministicFitnessProportional"];
+    let pop: Vec<TInd> = (0..n).map(|i| (i as u32, ((i * 7919) % n) as f64 * 0.25 + 1.0)).collect();
+    let c: Box<dyn Component<TagP>> = match which {
+        0 => sel::FullyRandom::new(k),
+        1 => sel::RandomWithoutRepetition::new(k.min(n as u32)),
+        2 => sel::RouletteWheel::new(k, 0.1),
+        3 => sel::StochasticUniversalSampling::new(k, 0.1),
+        4 => sel::Tournament::new(k, 5),
+        5 => sel::LinearRank::new(k),
+        6 => sel::ExponentialRank::new(k, 0.5).ok()?,
+        7 => sel::ExponentialRank::new(k, 0.37).ok()?,
+        8 => sel::ExponentialRank::new(k, 1e-6).ok()?,
+        9 => sel::ExponentialRank::new(k, 0.999).ok()?,
+        _ => sel::iwo::DeterministicFitnessProportional::new(1, 3),
+    };
+    let cfg = Cfg::prefix(&[], 0, seed);
+    let (out, _) = tape::run_once(&cfg, &[], || {
+        let mut st = state_with::<TagP>(vec![tpop(&pop)]);
+        let r = run_component(c.as_ref(), &TagP, &mut st).map_err(|e| format!("{:#}", e));
+        let pops: Vec<Vec<(u32, Option<f64>)>> = pops_of(&st).iter().map(|x| rd_tpop(x)).collect();
+        (r, pops)
+    });
+    let head = format!("C11 op={} large-population", names[which].split('(').next().unwrap());
+    let ctx = |w: String| format!("{} selecting {} from {} individuals with all-distinct objective values: {}", names[which], k, n, w);
+    let (r, pops) = match out {
+        Outcome::Done(o) => o,
+        Outcome::Panic(m) => return Some((format!("{} panic", head), ctx(format!("panicked: {}", m.chars().take(200).collect::<String>())))),
+        _ => return None,
+    };
+    if let Err(e) = r {
+        return Some((format!("{} error-on-valid-input", head), ctx(format!("returned Err: {}", e))));
+    }
+    let src: Vec<(u32, Option<f64>)> = pop.iter().map(|i| (i.0, Some(i.1))).collect();
+    if pops.len() != 2 || pops[1] != src {
+        return Some((format!("{} stack-effect", head), ctx("the source population changed or not exactly one population was pushed".into())));
+    }
+    let want = if which == 1 { k.min(n as u32) as usize } else { k as usize };
+    if which != 10 && pops[0].len() != want {
+        return Some((format!("{} count", head), ctx(format!("{} individuals selected", pops[0].len()))));
+    }
+    if let Some(m) = pops[0].iter().find(|m| !src.contains(m)) {
+        return Some((format!("{} foreign-individual", head), ctx(format!("{:?} is not a member of the population", m))));
+    }
+    if which == 1 && more_often_than_available(&pops[0], &src) {
+        return Some((format!("{} repetition", head), ctx("an individual was selected twice".into())));
+    }
+    None
+}
+
 fn populations(max_n: usize) -> Vec<Vec<TInd>> {
     let mut pops = vec![];
     for n in 0..=max_n {
@@ -501,6 +558,22 @@ pub fn run(rep: &mut Report) {
     part.require_outcomes(8);
     rep.push(part);
 
+    let mut part = Part::new("selection.large-populations");
+    part.caps_hit.push("large populations are checked on default generator streams of a few seeds, not exhaustively".to_string());
+    let sizes: Vec<usize> = if thorough { vec![17, 60, 200, 800, 2000] } else { vec![17, 60, 200, 800] };
+    let jobs: Vec<(usize, usize, u32, u64)> = (0..11usize).flat_map(|w| sizes.iter().flat_map(move |n| [1u32, 3, *n as u32].into_iter().flat_map(move |k| (0..(if thorough { 4u64 } else { 2 })).map(move |sd| (w, *n, k, sd))))).collect();
+    let res: Vec<Option<(String, String)>> = jobs.par_iter().map(|(w, n, k, sd)| check_large(*w, *n, *k, seed + sd)).collect();
+    for ((w, n, k, sd), r) in jobs.iter().zip(res) {
+        part.transitions += 1;
+        part.traces += 1;
+        part.states += 1;
+        part.outcome(format!("op{}", w));
+        if let Some((sg, d)) = r {
+            part.violate(sg, d, json!({"kind": "large", "which": w, "n": n, "k": k, "seed": seed + sd}));
+        }
+    }
+    rep.push(part);
+
     // selection pressure as a measure over the first generator word
     let grid = if thorough { 4096 } else { 256 };
     let mut part = Part::new("selection.pressure-sweep");
@@ -560,6 +633,9 @@ fn parse_sel(s: &str) -> Result<Sel, String> {
 }
 
 pub fn replay(case: &Value) -> Result<Vec<(String, String)>, String> {
+    if case["kind"].as_str() == Some("large") {
+        return Ok(check_large(case["which"].as_u64().unwrap_or(0) as usize, case["n"].as_u64().unwrap_or(17) as usize, case["k"].as_u64().unwrap_or(1) as u32, case["seed"].as_u64().unwrap_or(0)).into_iter().collect());
+    }
     let s = parse_sel(case["sel"].as_str().ok_or("no sel")?)?;
     let p: Vec<TInd> = case["pop"]
         .as_array()
